@@ -126,6 +126,9 @@ def run(run, tier):
 
 
 def replay(rp):
+    from . import c14x
+    if rp['replay'].get('kind') in getattr(c14x, 'KINDS', ()):
+        return c14x.replay(rp)
     if rp['replay'].get('kind') == 'simulator-relabelling':
         print(rp['replay']); print('re-run ./check C14'); return 2
     from . import c14_ode
